@@ -172,7 +172,7 @@ contract(LAN + "_LanProtocol._flush",
          loops={"0": {"match": "True", "modifies": ["self._queue"], "havoc": {"self._queue": "ext:queue:v3_queued"}}})
 
 contract(LAN + "_LanProtocol.write",
-         params={"self": "obj:" + V3, "data": "bytes"},
+         params={"self": "sub:" + LAN + "_LanProtocol", "data": "bytes"},
          requires=["self._transport is not None"],
          raises={LAN + "ProtocolError": {"post": {"nothing_written": "len(events('tx')) == 0"}}},
          emits={"tx": "data", "tx_on": "self._transport", "io": "'tx'"},
@@ -367,6 +367,20 @@ contract(LANC + ".authenticate",
                       "ghost_step": {"n": "pre(n) + 1"}}})
 
 
+contract(LANC + ".authenticate#hex_credentials",
+         params={"self": "obj:" + LANC, "token": "str", "key": "str", "retries": "int[1,8]"},
+         requires=["lan_inv(self)", "len(hexbytes(token)) <= 65000"],
+         let={"old_retries": "retries"},
+         cancellation=True,
+         modifies=["self._token", "self._key", "self._protocol", "self._protocol_version", "self._connection_expiration", "self._protocol.*"],
+         raises={LAN + "ProtocolError": {}, "builtins.TimeoutError": {}, "asyncio.CancelledError": {},
+                 "builtins.ValueError": {"modifies": [], "post": {"nothing_sent": "len(events('tx')) == 0"}}},
+         ensures={"hex_credentials_are_stored_as_their_bytes": "self._token == hexbytes(token) and self._key == hexbytes(key)",
+                  "handshake_carries_the_token_bytes": "all_handshakes(events('tx'), hexbytes(token))"},
+         notes="C06 quantifies over credentials in hex-string or bytes form: a hex string means exactly bytes.fromhex of it "
+               "(ValueError for a string that is not hexadecimal, before anything is sent)")
+
+
 def all_handshakes(T, token):
     return all(len(p) >= 8 and p[:2] == b"\x83\x70" and (p[5] & 0xF) == 0 and p[8:] == token for p in T)
 
@@ -515,7 +529,7 @@ contract(LAN + "_Packet.decode#marker_tamper",
 
 
 # ---- every connection starts with state of its own (C07: session state never survives a reconnect; C04: one buffer per connection) ----
-from pyvc.dsl import has_own, pending_getters
+from pyvc.dsl import has_own, pending_getters, hexbytes
 
 contract(LAN + "_LanProtocol.__init__",
          params={"self": "new:" + LAN + "_LanProtocol"},
